@@ -38,7 +38,7 @@ META = {
             "rewrites; the body of every other file under this file's armour.  Each mutated file is loaded with "
             "the right passphrase (and, for encrypted files, without one) by RSAKey, ECDSAKey and Ed25519Key "
             "(quick: the two non-native classes and the no-passphrase load only on every 8th offset; beyond the first 128 offsets the two RSA-2048 OpenSSH files "
-            "every 8th and the six RSA-1024 files every 2nd offset; thorough adds double faults: two body bytes <= 4 apart) through from_private_key_file "
+            "every 8th and the six RSA-1024 files every 2nd offset; thorough adds double faults: two body bytes <= 8 apart) through from_private_key_file "
             "(and from_private_key on every 8th case).  Allowed outcomes: SSHException (any subclass), or a key "
             "that signs, verifies under its own public encoding and equals the public section of the very file "
             "it was loaded from; an unencrypted OpenSSH-format file whose two check integers differ must not load.",
@@ -276,7 +276,7 @@ def n_bin(fid):
 QUICK_STRIDE = {"rsa2048-ossh-bcrypt": 8, "rsa2048-ossh-nopad": 8, "rsa-pem": 2, "rsa-pem-des3": 2,
                 "gen-rsa-pem": 2, "gen-rsa-pem-aes256": 2, "gen-rsa-ossh": 2, "gen-rsa-ossh-bcrypt": 2}
 QUICK_DENSE = 128
-PAIR_WINDOW = 4
+PAIR_WINDOW = 8
 PAIRS_SKIP = {"rsa2048-ossh-bcrypt", "rsa2048-ossh-nopad"}
 
 
@@ -483,8 +483,8 @@ def nt_code(fid, cname, api, level, label, idx):
     """compact, collision-free integer for one (file, loader, edit) case."""
     e = _EIDX.get(label.split(":", 1)[1].split("@")[0], 0) if level != "struct" else 0
     if level == "pairs":
-        e = e * 4 + int(label.rsplit("+", 1)[1]) - 1
-    return ((((_FIDX[fid] * 4 + _CIDX[cname]) * 4 + _AIDX[api]) * 4 + _LIDX[level]) * 64 + e) * 65536 + idx
+        e = e * 8 + int(label.rsplit("+", 1)[1]) - 1
+    return ((((_FIDX[fid] * 4 + _CIDX[cname]) * 4 + _AIDX[api]) * 4 + _LIDX[level]) * 128 + e) * 65536 + idx
 
 
 def work(item, acc):
@@ -539,7 +539,7 @@ def main(tier):
         "fault = one edit of one key file: text level (6 edits, quick 4, at every byte offset of the file), body level "
         "(7 edits, quick 5, at every byte offset of the decoded base64 body, re-armoured), structural (line drop/dup/"
         "swap/blank at every line, 18 armour-tag rewrites, header injections, body of every other file spliced "
-        "in); thorough adds double faults (two body bytes <= 4 apart, both bit-7-flipped / both ff; not for the two "
+        "in); thorough adds double faults (two body bytes <= 8 apart, both bit-7-flipped / both ff; not for the two "
         "RSA-2048 OpenSSH files); quick takes every 8th offset beyond the first 128 of the two RSA-2048 OpenSSH "
         "files and every 2nd of the six RSA-1024 files; non-native loaders and the no-passphrase load on every 8th offset.  Every fault x loader classes (see META) x {right passphrase, none}.  nontrivial = distinct "
         "(file, loader, edit) whose load got past the BEGIN/END armour scan of PKey._read_private_key (i.e. body "
@@ -569,7 +569,7 @@ def main(tier):
     ck.extra["files"] = {f[0]: {"bytes": n_text(f[0]), "body_bytes": n_bin(f[0]), "native": f[4],
                                 "encrypted": f[3] is not None} for f in FILES}
     ck.extra["bound"] = ("single faults at all offsets of all %d files%s" % (
-        len(FILES), "; double faults within a 4-byte window" if tier == "thorough"
+        len(FILES), "; double faults within an 8-byte window" if tier == "thorough"
         else " (beyond offset 128: RSA-2048 OpenSSH files every 8th, RSA-1024 files every 2nd offset)"))
     return ck.finish()
 
